@@ -185,8 +185,11 @@ class PipelineMonitor:
             return
         # (a) rule degrees
         fired_partial = False
+        last_use = {id(engine.rule_blocks[bi].rules[ri]): (bi, ri) for (bi, ri) in sorted(degrees)}
         for (bi, ri), d in degrees.items():
             rule = engine.rule_blocks[bi].rules[ri]
+            if last_use[id(rule)] != (bi, ri):
+                continue  # the same rule object is evaluated again later in this step: the object shows its last degree only
             ctx.hit("compare:rule degree")
             if not W.agree(ctx, rule.activation_degree, d, "rule degree"):
                 ctx.violation("a rule's activation degree is not weight x antecedent", dict(case, rule=rule.text, block=bi), d, rule.activation_degree)
@@ -312,7 +315,11 @@ def run(ctx):
         mon.install(probe)
         for i, rnd in ctx.cases("engines", nengines):
             general = i % 3 != 2
-            spec = E.gen_engine(rnd, activations=("General",) if general else tuple(c08.METHODS), d=rnd.choice([1, 3, 3]), allow_output_antecedent=general, free_weights=True, share_defuzzifier=True, routes=True, broken_rules=True)
+            spec = E.gen_engine(rnd, activations=("General",) if general else tuple(c08.METHODS), d=rnd.choice([1, 3, 3]), allow_output_antecedent=general, free_weights=True, share_defuzzifier=True, routes=True, broken_rules=True, shared_rules=True, big_blocks=0.04 if general else 0)
+            if spec.get("big"):
+                ctx.hit("workload:rule block with more than 32 rules")
+            if any("same_rules_as" in rb or any("same_rule_as" in r for r in rb["rules"]) for rb in spec["blocks"]):
+                ctx.hit("workload:rule objects shared between blocks or repeated in a block")
             try:
                 engine = E.build(fl, spec)
             except Exception as ex:
@@ -344,7 +351,7 @@ def run(ctx):
         probe.report(ctx)
         reach.report(ctx)
     ctx.require("hook:Engine.process", "compare:rule degree", "compare:fuzzy output", "compare:output value", "compare:disabled output", "rows:batch", "rows:scalar", "glue:Activated.membership", "glue:Aggregated.membership")
-    ctx.require("piece:rule whose load was rejected", "piece:disabled rule block", "piece:disabled rule", "piece:disabled variable", "piece:weighted rule", "piece:output variable in antecedent")
+    ctx.require("workload:rule block with more than 32 rules", "workload:rule objects shared between blocks or repeated in a block", "piece:rule whose load was rejected", "piece:disabled rule block", "piece:disabled rule", "piece:disabled variable", "piece:weighted rule", "piece:output variable in antecedent")
     if ctx.nshards == 1:
         for m in c08.METHODS:
             ctx.require(f"activation:{m}")
